@@ -804,6 +804,7 @@ class Engine:
         self.inputs = {}
         self.axioms_added = set()
         self.lazy = []
+        self._uniq = 0
 
     def begin(self, prefix):
         self.reset_path(prefix)
@@ -828,6 +829,10 @@ class Engine:
 
     def f64(self, name):
         return self._register(name, SymF64(z3.FP(name, F64())))
+
+    def uniq(self):
+        self._uniq += 1
+        return self._uniq
 
     def fresh_real(self, hint):
         n = '%s!%d' % (hint, len(self.inputs))
@@ -1384,3 +1389,24 @@ def source_hash(paths):
             h.update(p.encode())
             h.update(f.read())
     return h.hexdigest()[:16]
+
+
+class single_path:
+    """Context manager: an engine for running instrumented code once (concrete data
+    or a single symbolic path), outside ``explore``."""
+
+    def __init__(self, **engine_kw):
+        self.eng = Engine(**engine_kw)
+
+    def __enter__(self):
+        global _ENGINE
+        self.prev = _ENGINE
+        _ENGINE = self.eng
+        self.eng.begin(())
+        return self.eng
+
+    def __exit__(self, *a):
+        global _ENGINE
+        self.eng.end()
+        _ENGINE = self.prev
+        return False
